@@ -53,6 +53,7 @@ def check(chk, fx):
                  goldenreg.GROUPS["REGEXFE"])
     from .. import termrules
     termrules.termapi(chk, fx)        # ids / names / data the parser and the lexer builder read
+    golden.group(chk, fx, "DFAB", "reference summaries of the automaton construction and of the matcher", goldenreg.GROUPS["DFAB"])
     from .. import stdexrules
     stdexrules.bitset(chk, fx)       # character classes / item and FIRST sets live in cbitset
     lexrules.tag(chk, fx)
